@@ -322,3 +322,81 @@ Definition iter_ranges_of (table other : list trow) (m : qmode) (keep_empty : bo
   | QTrim => map snd (ga_by_ranges table other QTrim keep_empty)
   | _ => iter_slices table other (imode_of m) keep_empty
   end.
+
+(* ==== ERROR OUTCOMES =============================================================
+   Empty query lists and starts / ends of unequal length, which the definitions above
+   treat by zip truncation, as the code treats them: an outcome is a value or the name
+   of the exception the call raises.
+
+   idx_ranges, mask path (ends of the table not monotone):
+     if starts is None or not len(starts): starts = np.zeros(len(ends))   -- len(None): TypeError
+     if ends is None or not len(ends):     ends = [None] * len(starts)
+     _irange_nested: assert len(starts) == len(ends) > 0                  -- AssertionError
+   binary-search path: zip() truncates to the shorter list (no error); nothing to yield makes
+   pd.concat raise ValueError in in_ranges.  in_range passes one-element lists (or None) and
+   takes next() of the generator: it never fails this way. *)
+Inductive rq_outcome (A : Type) : Type :=
+  | RqOk (a : A)
+  | RqRaises (e : string).
+Arguments RqOk {A} a.
+Arguments RqRaises {A} e.
+
+Definition idx_ranges_e (t : list row) (starts ends : option (list Z)) (m : imode) : rq_outcome ranges :=
+  match t, starts, ends with
+  | [], _, _ => RqOk [(SelAll, None, None)]
+  | _, None, None => RqOk [(SelAll, None, None)]
+  | _, _, _ =>
+      if negb (is_monotonic (map r_hi t)) then
+        match given starts, ends with
+        | None, None => RqRaises "TypeError"
+        | gs, _ =>
+            let ss := match gs with
+                      | Some ss => ss
+                      | None => repeat 0 (length (match ends with Some e => e | None => [] end))
+                      end in
+            let es := match given ends with
+                      | Some es => map Some es
+                      | None => repeat None (length ss)
+                      end in
+            if Nat.eqb (length ss) (length es) && negb (Nat.eqb (length ss) 0)
+            then RqOk (irange_nested t ss es m)
+            else RqRaises "AssertionError"
+        end
+      else RqOk (irange_simple t starts ends m)
+  end.
+
+Definition iter_ranges_e (t : list row) (starts ends : option (list Z)) (m : qmode)
+  : rq_outcome (list (list row)) :=
+  match idx_ranges_e t starts ends (imode_of m) with
+  | RqRaises e => RqRaises e
+  | RqOk rs =>
+      RqOk (map (fun '(s, sv, ev) =>
+                   let sub := apply_sel s t in
+                   match m with QTrim => trim_rows sv ev sub | _ => sub end) rs)
+  end.
+
+(* GenomicArray.in_ranges with every argument shape *)
+Definition in_ranges_e (t : list trow) (chrom : option string) (starts ends : option (list Z))
+  (m : qmode) : rq_outcome (list row) :=
+  match iter_ranges_e (chrom_filter chrom t) starts ends m with
+  | RqRaises e => RqRaises e
+  | RqOk [] => RqRaises "ValueError"
+  | RqOk l => RqOk (concat l)
+  end.
+
+(* ==== LABELS AND POSITIONS ==========================================================
+   iter_slices yields index LABELS (`src_rows.index[slc].values`); the callers look rows
+   and column values up by label (`table.loc[indices]`, `column[slc]`).  A label lookup
+   returns, for every requested label in turn, ALL rows carrying it in table order; a
+   positional lookup (`iloc`, numpy indexing) returns the row at that position. *)
+Definition rows_loc (t : list row) (labels : list Z) : list row :=
+  flat_map (fun l => filter (fun r => r_id r =? l) t) labels.
+
+Definition rows_iloc (t : list row) (positions : list Z) : list row :=
+  flat_map (fun p => if p <? 0 then []
+                     else match nth_error t (Z.to_nat p) with Some r => [r] | None => [] end)
+           positions.
+
+(* the labels iter_slices yields *)
+Definition iter_slice_labels (table other : list trow) (m : imode) (keep_empty : bool) : list (list Z) :=
+  map (map r_id) (iter_slices table other m keep_empty).
